@@ -44,6 +44,8 @@ CONSTANTS Trees,    \* set of block trees (sequences, see VoteForest)
           MaxPV,    \* bound: distinct prevote targets kept per voter
           MaxPC,    \* bound: distinct precommit targets kept per voter
           EqV,      \* voters that may cast more than one vote per phase (the others cast at most one)
+          LeafBias,    \* TRUE (generator only): votes name leaves only, so intermediate blocks stay
+                       \* unvoted and the vote graph has to find merge points
           PVUnanimous, \* TRUE: model checking restricted to prevote sets in which every prevote names
                        \* the same block (the precommit-side notions see the prevotes only through g(V))
           Depth     \* behaviour length (generator)
@@ -99,7 +101,8 @@ Finish == /\ ~done /\ hist # <<>> /\ Len(hist) >= Depth
 
 (* random single successor; biased towards votes that build supermajorities *)
 PickOp ==
-  LET A == {o \in Ops : Allowed(o)}
+  LET Lv == {b \in Blocks : VFChildren(par, b) = {}}
+      A == {o \in Ops : Allowed(o) /\ (LeafBias => o.b \in Lv)}
       r == RandomElement({x \in 1..10 : Len(hist) >= 0})  \* state-dependent: not cached as a constant
       fresh == {o \in A : IF o.op = "Prevote" THEN pv[o.v] = {} ELSE pc[o.v] = {}}
       pre == {o \in fresh : o.op = "Prevote"}
